@@ -19,9 +19,12 @@ var Checks = map[string]func(tier string, seed uint64) int{
 	"C06": C06,
 	"C07": C07,
 	"C08": C08,
+	"C09": C09,
 	"C10": C10,
 	"C12": C12,
 	"C13": C13,
+	"C14": C14,
+	"C15": C15,
 	"C17": C17,
 	"C19": C19,
 }
@@ -36,6 +39,7 @@ var Generators = map[string]func(seed uint64, i int) *world.Case{
 	"C08": GenC08,
 	"C12": GenC12,
 	"C13": GenC13,
+	"C14": GenC14,
 	"C19": GenC19,
 }
 
